@@ -17,11 +17,13 @@ import (
 	"encoding/json"
 	"fmt"
 	"math"
+	"math/big"
 	"reflect"
 	"sort"
 	"strconv"
 	"strings"
 
+	"github.com/NethermindEth/juno/core/felt"
 	rpcv10 "github.com/NethermindEth/juno/rpc/v10"
 )
 
@@ -31,8 +33,15 @@ type tInner struct {
 	N int64 `json:"n" validate:"required"`
 }
 
+// tPlain has no tags of its own: a zero tPlain violates the `required` of the field holding it only under
+// validator.WithRequiredStructEnabled() (rpc/v10/validator.go)
+type tPlain struct {
+	V int64 `json:"v"`
+}
+
 type tStruct struct {
 	N     int64    `json:"n" validate:"required"`
+	Tag   tPlain   `json:"tag" validate:"required"`
 	S     string   `json:"s"`
 	Inner tInner   `json:"inner" validate:"required"`
 	Opt   *tInner  `json:"opt"`
@@ -47,6 +56,7 @@ var slotTypes = map[string][2]string{
 	"tc": {"pblockid", "respflags"},
 	"tq": {"lptstruct", "blockid"},
 	"te": {"peventargs", "ptstruct"},
+	"tr": {"rbmap", "prbounds"},
 }
 
 var goTypes = map[string]reflect.Type{
@@ -61,13 +71,15 @@ var goTypes = map[string]reflect.Type{
 	"psubid":     reflect.TypeOf((*rpcv10.SubscriptionBlockID)(nil)),
 	"respflags":  reflect.TypeOf(rpcv10.ResponseFlags{}),
 	"peventargs": reflect.TypeOf((*rpcv10.EventArgs)(nil)),
+	"rbmap":      reflect.TypeOf(rpcv10.ResourceBoundsMap{}),
+	"prbounds":   reflect.TypeOf((*rpcv10.ResourceBounds)(nil)),
 }
 
 // concrete slot type -> type class of the specification (TypeClass in JsonRpc.tla)
 var classOf = map[string]string{
 	"tstruct": "struct", "ptstruct": "pstruct", "pint": "pint", "ltstruct": "slice", "lptstruct": "lsp",
 	"mptstruct": "mapp", "blockid": "custom", "pblockid": "pcustom", "psubid": "pcustom", "respflags": "flags",
-	"peventargs": "pstruct",
+	"peventargs": "pstruct", "rbmap": "struct", "prbounds": "pstruct",
 }
 
 func isTyped(m string) bool { _, ok := slotTypes[m]; return ok }
@@ -89,7 +101,7 @@ func canonTS(s *tStruct) string {
 	for i := range s.List {
 		l = append(l, strconv.FormatInt(s.List[i].N, 10))
 	}
-	return fmt.Sprintf("{n:%d s:%q inner:%d opt:%s list:[%s]}", s.N, s.S, s.Inner.N, canonInner(s.Opt), strings.Join(l, " "))
+	return fmt.Sprintf("{n:%d tag:%d s:%q inner:%d opt:%s list:[%s]}", s.N, s.Tag.V, s.S, s.Inner.N, canonInner(s.Opt), strings.Join(l, " "))
 }
 
 func canonBlockID(b *rpcv10.BlockID) string {
@@ -129,6 +141,20 @@ func canonEventArgs(e *rpcv10.EventArgs) string {
 	}
 	return fmt.Sprintf("ev{from:%s to:%s addr:[%s] keys:[%s] chunk:%d tok:%q}", canonBlockID(e.FromBlock), canonBlockID(e.ToBlock),
 		strings.Join(addr, " "), strings.Join(keys, " "), e.ChunkSize, e.ContinuationToken)
+}
+
+func canonFelt(f *felt.Felt) string {
+	if f == nil {
+		return "nil"
+	}
+	return f.String()
+}
+
+func canonRB(r *rpcv10.ResourceBounds) string {
+	if r == nil {
+		return "nil"
+	}
+	return "rb{amt:" + canonFelt(r.MaxAmount) + " price:" + canonFelt(r.MaxPricePerUnit) + "}"
 }
 
 // canonValue: the canonical text of a handler argument of concrete slot type cty.
@@ -185,6 +211,10 @@ func canonValue(cty string, v any) string {
 		return fmt.Sprintf("flags:%v", x.IncludeProofFacts)
 	case *rpcv10.EventArgs:
 		return canonEventArgs(x)
+	case rpcv10.ResourceBoundsMap:
+		return "rbm{l1:" + canonRB(&x.L1Gas) + " l2:" + canonRB(&x.L2Gas) + " l1d:" + canonRB(&x.L1DataGas) + "}"
+	case *rpcv10.ResourceBounds:
+		return canonRB(x)
 	}
 	return fmt.Sprintf("?%s:%T", cty, v)
 }
@@ -241,7 +271,7 @@ func typedPK(e absEntry) string {
 // ---------------------------------------------------------------------------- tag predicates (by hand)
 
 func tsOK(s *tStruct) bool {
-	if s.N == 0 || s.Inner.N == 0 || (s.Opt != nil && s.Opt.N == 0) {
+	if s.N == 0 || s.Tag.V == 0 || s.Inner.N == 0 || (s.Opt != nil && s.Opt.N == 0) {
 		return false
 	}
 	for i := range s.List {
@@ -250,6 +280,12 @@ func tsOK(s *tStruct) bool {
 		}
 	}
 	return true
+}
+
+// rbOK: rpcv10.ResourceBounds' tags - both felts required, max_amount within 64 bits, max_price_per_unit within 128
+func rbOK(r *rpcv10.ResourceBounds) bool {
+	bits := func(f *felt.Felt) int { return f.BigInt(new(big.Int)).BitLen() }
+	return r.MaxAmount != nil && r.MaxPricePerUnit != nil && bits(r.MaxAmount) <= 64 && bits(r.MaxPricePerUnit) <= 128
 }
 
 // inspectTyped: canonical text, do the validate tags hold, is there a nil pointer element.
@@ -282,6 +318,10 @@ func inspectTyped(cty string, v any) (canon string, tagsOK, nilElem bool) {
 		}
 	case *rpcv10.EventArgs:
 		tagsOK = x == nil || x.ChunkSize >= 1
+	case rpcv10.ResourceBoundsMap:
+		tagsOK = rbOK(&x.L1Gas) && rbOK(&x.L2Gas) && rbOK(&x.L1DataGas)
+	case *rpcv10.ResourceBounds:
+		tagsOK = x == nil || rbOK(x)
 	}
 	return canon, tagsOK, nilElem
 }
@@ -343,12 +383,20 @@ func (r *renderer) brokenInner() string {
 
 // genTS: a tStruct object; valid = all validate tags hold, otherwise exactly one of them is violated.
 func (r *renderer) genTS(valid bool) (string, *tStruct) {
-	s := &tStruct{N: r.nz(), Inner: tInner{N: r.nz()}}
+	s := &tStruct{N: r.nz(), Tag: tPlain{V: r.nz()}, Inner: tInner{N: r.nz()}}
 	breakAt := -1
 	if !valid {
-		breakAt = r.rng.Intn(4)
+		breakAt = r.rng.Intn(5)
 	}
 	var ms []string
+	if breakAt == 4 {
+		s.Tag.V = 0
+		if t := r.pick("", "null", "{}", `{"v":0}`, `{"v":null}`); t != "" {
+			ms = append(ms, r.kv("tag", t))
+		}
+	} else {
+		ms = append(ms, r.kv("tag", "{"+r.ws()+r.kv("v", strconv.FormatInt(s.Tag.V, 10))+"}"))
+	}
 	if breakAt == 0 {
 		s.N = 0
 		switch r.rng.Intn(3) {
@@ -430,13 +478,13 @@ func (r *renderer) genTS(valid bool) (string, *tStruct) {
 // badTS: not a tStruct for encoding/json (wrong JSON kind for the value or for one of its fields)
 func (r *renderer) badTS() string {
 	if r.rng.Intn(3) == 0 {
-		return r.pick("5", `"x"`, "true", "[1]", "[]", `[{"n":1,"inner":{"n":1}}]`, "-1.5")
+		return r.pick("5", `"x"`, "true", "[1]", "[]", `[{"n":1,"tag":{"v":1},"inner":{"n":1}}]`, "-1.5")
 	}
 	field := r.pick(`"n":"7"`, `"n":1.5`, `"n":true`, `"n":[1]`, `"n":9223372036854775808`, `"n":1e2`, `"s":5`, `"s":true`, `"s":["x"]`,
 		`"inner":5`, `"inner":[{"n":1}]`, `"inner":"x"`, `"inner":{"n":"1"}`, `"opt":7`, `"opt":[]`, `"opt":{"n":{}}`,
-		`"list":{}`, `"list":[5]`, `"list":"x"`, `"list":[{"n":1},"y"]`, `"list":[[]]`)
+		`"list":{}`, `"list":[5]`, `"list":"x"`, `"list":[{"n":1},"y"]`, `"list":[[]]`, `"tag":5`, `"tag":{"v":"1"}`, `"tag":[]`)
 	ms := []string{field}
-	for _, base := range []string{`"n":3`, `"inner":{"n":4}`} {
+	for _, base := range []string{`"n":3`, `"inner":{"n":4}`, `"tag":{"v":2}`} {
 		if !strings.HasPrefix(field, base[:strings.Index(base, ":")+1]) {
 			ms = append(ms, base)
 		}
@@ -592,6 +640,88 @@ func (r *renderer) badEventArgs() string {
 	return r.joinObject(ms)
 }
 
+// hexBits: a canonical hex literal of exactly n hex digits
+func (r *renderer) hexDigits(n int) string {
+	var b strings.Builder
+	b.WriteString("0x")
+	for i := 0; i < n; i++ {
+		d := r.rng.Intn(16)
+		if i == 0 {
+			d = 1 + r.rng.Intn(15)
+		}
+		b.WriteByte("0123456789abcdef"[d])
+	}
+	return b.String()
+}
+
+// genRB: an rpcv10.ResourceBounds object; valid = both felts present, max_amount <= 64 bits,
+// max_price_per_unit <= 128 bits (boundaries included); otherwise exactly one tag is violated.
+func (r *renderer) genRB(valid bool) (string, string) {
+	amt := r.hexDigits(1 + r.rng.Intn(16))
+	if r.rng.Intn(5) == 0 {
+		amt = r.pick("0xffffffffffffffff", "0x8000000000000000", "0x0", "0x1")
+	}
+	price := r.hexDigits(1 + r.rng.Intn(32))
+	if r.rng.Intn(5) == 0 {
+		price = r.pick("0xffffffffffffffffffffffffffffffff", "0x80000000000000000000000000000000", "0x0", "0x10000000000000000")
+	}
+	amtText, priceText := `"`+amt+`"`, `"`+price+`"`
+	if !valid {
+		switch r.rng.Intn(4) {
+		case 0:
+			amt, amtText = "nil", r.pick("", "null")
+		case 1:
+			price, priceText = "nil", r.pick("", "null")
+		case 2:
+			amt = r.pick("0x10000000000000000", "0x1ffffffffffffffff", r.hexDigits(17+r.rng.Intn(20)))
+			amtText = `"` + amt + `"`
+		default:
+			price = r.pick("0x100000000000000000000000000000000", r.hexDigits(33+r.rng.Intn(20)))
+			priceText = `"` + price + `"`
+		}
+	}
+	var ms []string
+	if amtText != "" {
+		ms = append(ms, r.kv("max_amount", amtText))
+	}
+	if priceText != "" {
+		ms = append(ms, r.kv("max_price_per_unit", priceText))
+	}
+	return r.joinObject(ms), "rb{amt:" + amt + " price:" + price + "}"
+}
+
+func (r *renderer) badRB() string {
+	return r.pick("5", `"x"`, "[]", "true", `{"max_amount":5,"max_price_per_unit":"0x1"}`, `{"max_amount":"zz","max_price_per_unit":"0x1"}`,
+		`{"max_amount":"0x1","max_price_per_unit":"0x"}`, `{"max_amount":"0x1","max_price_per_unit":["0x1"]}`, `{"max_amount":"1","max_price_per_unit":"0x1"}`,
+		`{"max_amount":{},"max_price_per_unit":"0x1"}`)
+}
+
+// genRBM: an rpcv10.ResourceBoundsMap; invalid = one of the three bounds violates a tag, or is missing / null
+// (a zero ResourceBounds violates `required` - the production validator has WithRequiredStructEnabled)
+func (r *renderer) genRBM(valid bool) (string, string) {
+	names := []string{"l1_gas", "l2_gas", "l1_data_gas"}
+	breakAt := -1
+	if !valid {
+		breakAt = r.rng.Intn(3)
+	}
+	var ms []string
+	cs := make([]string, 3)
+	for i, n := range names {
+		switch {
+		case i == breakAt && r.rng.Intn(3) == 0:
+			cs[i] = "rb{amt:nil price:nil}"
+			if t := r.pick("", "null", "{}"); t != "" {
+				ms = append(ms, r.kv(n, t))
+			}
+		default:
+			t, c := r.genRB(i != breakAt)
+			ms = append(ms, r.kv(n, t))
+			cs[i] = c
+		}
+	}
+	return r.joinObject(ms), "rbm{l1:" + cs[0] + " l2:" + cs[1] + " l1d:" + cs[2] + "}"
+}
+
 // elems renders n list elements for the container generators: mode p (all valid), inv (one violates a
 // tag), nin (at least one null, the others valid). ptr: the elements are pointers (null = nil).
 func (r *renderer) elems(mode string, ptr bool) ([]string, []*tStruct) {
@@ -655,7 +785,7 @@ func (r *renderer) typed(cty, tok string) (string, string) {
 	case "ltstruct", "lptstruct":
 		if tok == "bad" {
 			if r.rng.Intn(2) == 0 {
-				return r.pick("{}", `"x"`, "5", "true", `{"0":{"n":1,"inner":{"n":1}}}`), ""
+				return r.pick("{}", `"x"`, "5", "true", `{"0":{"n":1,"tag":{"v":1},"inner":{"n":1}}}`), ""
 			}
 			t, _ := r.genTS(true)
 			xs := []string{t, r.badElem()}
@@ -671,7 +801,7 @@ func (r *renderer) typed(cty, tok string) (string, string) {
 	case "mptstruct":
 		if tok == "bad" {
 			if r.rng.Intn(2) == 0 {
-				return r.pick("[]", `"x"`, "5", "true", `[{"n":1,"inner":{"n":1}}]`), ""
+				return r.pick("[]", `"x"`, "5", "true", `[{"n":1,"tag":{"v":1},"inner":{"n":1}}]`), ""
 			}
 			t, _ := r.genTS(true)
 			return r.joinObject([]string{r.kv("k0", t), r.kv("k1", r.badElem())}), ""
@@ -713,6 +843,20 @@ func (r *renderer) typed(cty, tok string) (string, string) {
 			return r.badEventArgs(), ""
 		}
 		return r.genEventArgs(tok != "inv")
+	case "prbounds":
+		if tok == "bad" {
+			return r.badRB(), ""
+		}
+		return r.genRB(tok != "inv")
+	case "rbmap":
+		if tok == "bad" {
+			if r.rng.Intn(2) == 0 {
+				return r.pick("5", `"x"`, "[]", "true"), ""
+			}
+			t, _ := r.genRB(true)
+			return r.joinObject([]string{r.kv("l1_gas", t), r.kv("l2_gas", r.badRB()), r.kv("l1_data_gas", t)}), ""
+		}
+		return r.genRBM(tok != "inv")
 	}
 	panic("typed: unknown slot type " + cty)
 }
